@@ -110,6 +110,9 @@ void EGLPNUM_TYPENAME_ILLsimplex_init_lpinfo (
 {
 	EGLPNUM_TYPENAME_ILLbasis_init_basisinfo (lp);
 	EGLPNUM_TYPENAME_init_internal_lpinfo (lp);
+	/* queried by QSget_objval even when no simplex ran on this lpinfo */
+	init_lp_status_info (&(lp->probstat));
+	init_lp_status_info (&(lp->basisstat));
 }
 
 void EGLPNUM_TYPENAME_ILLsimplex_free_lpinfo (
